@@ -121,7 +121,7 @@ func runC17(c *Ctx, r *Report) {
 		addErr := map[types.Object]string{}
 		var directOK, anyAdd bool
 		for _, s := range sites {
-			if s.fn.Root() != w {
+			if orig(s.fn.Root()) != orig(w) {
 				continue
 			}
 			if s.kind == "dag" {
@@ -228,8 +228,8 @@ func runC17(c *Ctx, r *Report) {
 	}
 
 	// R-C17.1
-	app := p.Func("", "IPFSLog", "Append")
-	create := p.Func("entry", "", "CreateEntryWithIO")
+	app := p.FuncI("", "IPFSLog", "Append")
+	create := p.FuncI("entry", "", "CreateEntryWithIO")
 	reach := c.CG.Reach([]*Fn{create}, false)
 	var pathTo []string
 	for _, w := range impls {
@@ -372,7 +372,7 @@ func runC17(c *Ctx, r *Report) {
 	})
 
 	// manifest writer publishes ToJSONLog() of the same log
-	tm := p.Func("", "", "toMultihash")
+	tm := p.FuncI("", "", "toMultihash")
 	okPub := false
 	walkNoLit(tm.Body, func(n ast.Node) bool {
 		call, ok := n.(*ast.CallExpr)
